@@ -33,6 +33,7 @@ type ccScn struct {
 	Corrupt    string `json:"corrupt"`    // "" | "truncate" | "flip" | "other"
 	DropExt    bool   `json:"drop_ext"`   // remove the compress_certificate extension after BuildHandshakeState
 	ZWindow    int    `json:"zwindow"`    // zstd encoder window size in bytes (0 = 128 KiB); a streamed frame declares it in its header
+	ClientAuth int    `json:"client_auth"` // 1: the server requests a client certificate (CertificateRequest precedes its certificate), 2: requires one
 }
 
 type flusher interface {
@@ -187,6 +188,12 @@ func init() {
 				return
 			}
 			ccfg := &tls.Config{ServerName: "example.com", RootCAs: pk.Pool, OmitEmptyPsk: true}
+			if s.ClientAuth == 1 {
+				scfg.ClientAuth = tls.RequestClientCert
+			} else if s.ClientAuth == 2 {
+				scfg.ClientAuth = tls.RequireAnyClientCert
+				ccfg.Certificates = []tls.Certificate{leaf}
+			}
 			r := hlib.RunHandshake(ccfg, scfg, tls.HelloCustom, hlib.HSOpts{Timeout: 20 * time.Second, Echo: []int{7}, Prep: func(u *tls.UConn) error {
 				spec, err := tls.UTLSIdToSpec(id)
 				if err != nil {
